@@ -18,6 +18,7 @@ RULE = ('(a) random well-typed trees (generator of C05, depth<=4, memory reads a
 RULE += " Round 6: machines built with a func_read callback over a fixed backing memory image: cells of several widths at concrete addresses, read back at every width from the same address and at addresses no cell touches, directly and through a pointer the state binds to a constant (reads that start inside a cell are C07's business)."
 RULE += ' Round 7: pairs of compositions with one layout that differ in one part chosen to collide under xor-style digests (byte 0 / byte 2 of a value, exchanged arms or operands), under ^ - / & + == and as the arms of a conditional, in 7 states.'
 RULE += ' Round 8: the state-bound constants of the pairs shard include every value 0..9.'
+RULE += ' Round 10: every case evaluates the same expression object a second time on a new machine with an equal state and judges that result as well; width twins: one expression holding the same shape at two widths (8/16/32/64) over the same identifiers with numerically equal literals, the narrow computation wrapping, as condition and arm, as two summands, xor-ed and composed, narrow first and wide first.'
 RULE += ' Round 9: composition slots whose contents are wider than the slot (conditionals with 32-bit constant arms, negations, constants) in the lowest, a middle and the top slot.'
 ASSUMPTIONS = ['irsem is the meaning of the IR', 'symbolic bases p/q/const are kept >= 1 MiB apart in every valuation (no aliasing outside the statement)',
                'division by zero / quotient overflow / bsf(0) are not compared']
@@ -136,17 +137,29 @@ def backing_read(machine, a):
     return exprgen.Int(env.load(int(a.arg.arg), a.size // 8), a.size)
 
 
-def evaluate_real(e, state, backing=False):
+def evaluate_real(e, state, backing=False, second=None):
     from miasmx.expression.expression_eval_abstract import eval_abs
     st = dict((exprgen.fresh_copy(k), exprgen.fresh_copy(v)) for k, v in state.items())
     m = eval_abs(st, func_read=backing_read) if backing else eval_abs(st)
-    return m.eval_expr(exprgen.fresh_copy(e), {})
+    ec = exprgen.fresh_copy(e)
+    r = m.eval_expr(ec, {})
+    if second is not None:
+        # the same expression object evaluated once more, on a new machine with an equal state (an evaluation may not leave
+        # anything behind in the caller's tree that changes what it means)
+        st2 = dict((exprgen.fresh_copy(k), exprgen.fresh_copy(v)) for k, v in state.items())
+        m2 = eval_abs(st2, func_read=backing_read) if backing else eval_abs(st2)
+        try:
+            second.append(m2.eval_expr(ec, {}))
+        except Exception as exn:
+            second.append(exn)
+    return r
 
 
 def judge(e, state, seedtag, want_const=False, backing=False):
     """Returns None or (kind, detail, result)."""
+    second = []
     try:
-        r = evaluate_real(e, state, backing)
+        r = evaluate_real(e, state, backing, second)
     except Exception as ex:
         # evaluator's own "undefined" signals are not violations when the reference agrees
         if isinstance(ex, ValueError) and ('div by 0' in str(ex) or 'Divide Error' in str(ex)):
@@ -183,6 +196,26 @@ def judge(e, state, seedtag, want_const=False, backing=False):
         return ('not-constant', 'all inputs constant but the result is %s' % r, r)
     if not any_cmp:
         return ('uncompared', '', r)
+    # the second evaluation of the same object (first one was right)
+    r2 = second[0] if second else None
+    if isinstance(r2, Exception):
+        return ('second-evaluation/raises:%s' % type(r2).__name__, 'the first evaluation of the object gives %s, a second one (new machine, equal state) raises %r' % (r, r2), r)
+    if r2 is not None and hasattr(r2, 'visit'):
+        try:
+            if irsem.width(r2) != we:
+                return ('second-evaluation/width', 'the first evaluation of the object gives %s, a second one (new machine, equal state) gives %s of %d bits' % (r, r2, irsem.width(r2)), r2)
+            for env in make_envs(seedtag):
+                if backing:
+                    env.memseed = BACKING
+                try:
+                    want = irsem.evaluate(e, apply_state(state, env))
+                    got = irsem.evaluate(r2, env)
+                except (irsem.Undefined, irsem.Uninterpreted):
+                    continue
+                if got != want:
+                    return ('second-evaluation/value', 'the first evaluation of the object gives %s, a second one (new machine, equal state) gives %s = 0x%x, substitution gives 0x%x' % (r, r2, got, want), r2)
+        except irsem.IllFormed as ex:
+            return ('second-evaluation/ill-formed', repr(ex), r2)
     return None
 
 
@@ -356,6 +389,68 @@ def shards(tier, seed):
     out += [('pairs', w, o1) for w in (8, 32) for o1 in PAIR_OPS]
     out += [('backing', i) for i in range(4)]
     out += [('cmptwins', 0)]
+    out += [('widthtwins', 0)]
+    return out
+
+
+def width_twin_cases():
+    """One expression holding the same shape at two widths over the same identifiers with numerically equal literals, chosen so
+    that the narrow computation wraps and the wide one does not (an evaluation cache or an equality that does not look at the
+    width of a literal hands the narrow result to the wide occurrence, or the other way round)."""
+    ex, mi = exprgen.M()
+    I = exprgen.Int
+    c, d = ex.ExprId('c1', 1), ex.ExprId('d32', 32)
+
+    def shapes(w):
+        m = irsem.mask(w)
+        top = 1 << (w - 1)
+        return [
+            ('cond+1', lambda W: ex.ExprOp('+', ex.ExprCond(c, I(m, W), I(0, W)), I(1, W))),
+            ('k+k', lambda W: ex.ExprOp('+', I(m, W), I(1, W))),
+            ('cond*2', lambda W: ex.ExprOp('*', ex.ExprCond(c, I(top, W), I(1, W)), I(2, W))),
+            ('k<<1', lambda W: ex.ExprOp('<<', I(top | 1, W), I(1, W))),
+            ('-k', lambda W: ex.ExprOp('-', I(top, W))),
+            ('cond-1', lambda W: ex.ExprOp('-', ex.ExprCond(c, I(0, W), I(5, W)), I(1, W))),
+            ('k>>>1', lambda W: ex.ExprOp('>>>', I(1, W), I(1, W))),
+            ('cond^k', lambda W: ex.ExprOp('+', ex.ExprOp('^', ex.ExprCond(d, I(m, W), I(3, W)), I(0, W)), I(m, W))),
+        ]
+    out = []
+    for w1, w2 in ((8, 16), (8, 32), (16, 32), (8, 64), (32, 64), (16, 64)):
+        for name, f in shapes(w1):
+            lo, hi = f(w1), f(w2)
+            zlo = ex.ExprCompose([(lo, 0, w1), (ex.ExprSlice(I(0, w2), w1, w2), w1, w2)])
+            shi = ex.ExprSlice(hi, 0, w1)
+            exprs = [
+                ('cond-narrow-first', ex.ExprCond(lo, I(0, w2), hi)),
+                ('cond-wide-first', ex.ExprCond(hi, lo, I(1, w1))),
+                ('sum-narrow-first', ex.ExprOp('+', zlo, hi)),
+                ('sum-wide-first', ex.ExprOp('+', hi, zlo)),
+                ('xor-slices', ex.ExprOp('^', lo, shi)),
+                ('compose', ex.ExprCompose([(lo, 0, w1), (ex.ExprSlice(hi, w1, w2), w1, w2)])),
+            ]
+            for sname, st in (('c=1', {c: I(1, 1), d: I(7, 32)}), ('c=0', {c: I(0, 1), d: I(0, 32)}), ('c-free', {})):
+                for ename, e in exprs:
+                    out.append((e, st, ('wt', w1, w2, name, ename, sname)))
+    # compositions of slices that are adjacent in their source (the simplifier merges them), the source absent from the state,
+    # bound to a symbol or to a constant: what the second evaluation of the same object sees must still be the same value
+    x32, y32, x64 = ex.ExprId('x32', 32), ex.ExprId('y32', 32), ex.ExprId('x64', 64)
+    S, Cm = ex.ExprSlice, ex.ExprCompose
+    adj = [
+        ('8+8|16', Cm([(S(x32, 0, 8), 0, 8), (S(x32, 8, 16), 8, 16), (S(y32, 0, 16), 16, 32)])),
+        ('16|8+8', Cm([(S(y32, 0, 16), 0, 16), (S(x32, 16, 24), 16, 24), (S(x32, 24, 32), 24, 32)])),
+        ('8+8+8+8', Cm([(S(x32, 0, 8), 0, 8), (S(x32, 8, 16), 8, 16), (S(x32, 16, 24), 16, 24), (S(x32, 24, 32), 24, 32)])),
+        ('16+16', Cm([(S(x32, 0, 16), 0, 16), (S(x32, 16, 32), 16, 32)])),
+        ('shifted 8+8', Cm([(S(y32, 0, 8), 0, 8), (S(x32, 8, 16), 8, 16), (S(x32, 16, 24), 16, 24), (S(y32, 24, 32), 24, 32)])),
+        ('1+1 bits', Cm([(S(x32, 0, 1), 0, 1), (S(x32, 1, 2), 1, 2), (S(y32, 2, 32), 2, 32)])),
+        ('64: 16+16|32', Cm([(S(x64, 16, 32), 0, 16), (S(x64, 32, 48), 16, 32), (S(y32, 0, 32), 32, 64)])),
+        ('under +', ex.ExprOp('+', Cm([(S(x32, 0, 8), 0, 8), (S(x32, 8, 16), 8, 16), (S(y32, 0, 16), 16, 32)]), y32)),
+        ('arm of cond', ex.ExprCond(S(y32, 0, 1), Cm([(S(x32, 8, 16), 0, 8), (S(x32, 16, 24), 8, 16), (S(x32, 0, 16), 16, 32)]), x32)),
+    ]
+    sym = ex.ExprId('s32', 32)
+    for name, e in adj:
+        for sname, st in (('absent', {y32: I(0xAABBCCDD, 32)}), ('symbol', {x32: ex.ExprOp('+', sym, I(1, 32)), x64: ex.ExprId('s64', 64), y32: I(0xAABBCCDD, 32)}),
+                          ('const', {x32: I(0x11223344, 32), x64: I(0x1122334455667788, 64), y32: I(0xAABBCCDD, 32)}), ('empty', {})):
+            out.append((e, st, ('adj', name, sname)))
     return out
 
 
@@ -466,6 +561,13 @@ def run_shard(shard, tier, seed):
         sh.sample({'operator': op, 'widths': widths, 'state': [hex(v) for v in combos[0]], 'result': _safe_str(e, dict((i_, exprgen.Int(v, i_.size)) for i_, v in zip(ids, combos[0])))}, 1)
         return sh
     rng = common.rng_for(seed, 'C06', shard[0], shard[1])
+    if shard[0] == 'widthtwins':
+        for e, state, tag in width_twin_cases():
+            if irsem.typecheck(e):
+                sh.counters['widthtwins_ill_typed_template'] += 1
+                continue
+            check_case(sh, e, state, tag, 'width-twins', want_const=False)     # values only: the zero-extension slots are 24/48/56 bits wide and the library has no constants of those widths
+        return sh
     if shard[0] == 'cmptwins':
         for e, state, tag in compose_twin_cases():
             if irsem.typecheck(e):
